@@ -169,6 +169,12 @@ def run(chk, S: Session):
             continue
         r3.require(st0 is T.mk("mcall", (A("e.constraint"), "init_linearization")), f"{ecls}.init_error", "the estimator's own constraint's initial state", f"{T.show(st0, 3)}", SOLVERS)
         S.absorb(it)
+    # rejection of malformed inputs: the Jacobian-handler rows of the guard table (defined in rules/c20.py) are part of this property's statement
+    from .c20 import eval_row, rows
+    r4 = chk.rule("R-C17-4", "inputs / outputs that are not 2-d arrays with matching trailing dimension are rejected by every handler method (rows of the C20 guard table)", floor=30)
+    for row in rows(S):
+        if row.group == "Jacobian handlers":
+            eval_row(chk, S, r4, row)
     # consumers: the isotropic / block-diagonal residual linearisations contract the block with the mean in the handler's layout
     from .c11 import _rfun_list, consumer_shapes, mk_res, strip_layout
     from ..harness import mcalls
